@@ -71,6 +71,7 @@ type Limits struct {
 	MaxSteps int
 	MaxDepth int
 	MaxPaths int
+	MaxWall  time.Duration // per exploration; 0 = unlimited
 }
 
 var DefaultLimits = Limits{MaxSteps: 2_000_000, MaxDepth: 400, MaxPaths: 20000}
@@ -163,6 +164,7 @@ type Machine struct {
 	patterns      map[string]*regexp.Regexp
 	patternOrder  []string
 	jnTexts       map[*smt.Term]*Node
+	axioms        map[*smt.Term]bool
 	extraModel    []*smt.Term
 	Env           map[string]string
 
@@ -191,6 +193,18 @@ func (m *Machine) AddBase(t *smt.Term) {
 	}
 }
 
+// Axiom adds a universally valid fact about terms created during a path (each fact once).
+func (m *Machine) Axiom(t *smt.Term) {
+	if m.axioms == nil {
+		m.axioms = map[*smt.Term]bool{}
+	}
+	if m.axioms[t] {
+		return
+	}
+	m.axioms[t] = true
+	m.AddBase(t)
+}
+
 // Base returns the base constraints.
 func (m *Machine) Base() []*smt.Term { return m.base }
 
@@ -205,7 +219,7 @@ func (m *Machine) Explore(body func(m *Machine) Value, onPath func(m *Machine, r
 	m.S.Push()
 	m.baseAsserted = 0
 	for len(m.worklist) > 0 {
-		if m.Stats.Paths >= m.Limits.MaxPaths {
+		if m.Stats.Paths >= m.Limits.MaxPaths || (m.Limits.MaxWall > 0 && time.Since(t0) > m.Limits.MaxWall) {
 			m.Stats.PathsCapped = true
 			break
 		}
